@@ -119,7 +119,7 @@ def plan(tier, seed):
 # ====================================================================== generation: text rules
 
 
-def gen_prefix(r: random.Random, afi: int, ctype: int):
+def gen_prefix(r: random.Random, afi: int, ctype: int, allow_offset: bool = True):
     """-> (text value, payload)"""
     if afi == 1:
         length = r.choice([0, 1, 7, 8, 9, 15, 16, 17, 23, 24, 25, 31, 32, r.randrange(33)])
@@ -133,7 +133,7 @@ def gen_prefix(r: random.Random, afi: int, ctype: int):
     if length < 128:
         addr &= ~((1 << (128 - length)) - 1) & ((1 << 128) - 1)
     offset = 0
-    if length > 1 and r.random() < 0.12:
+    if allow_offset and length > 1 and r.random() < 0.12:
         offset = r.choice([1, 8, length // 2, length - 1, r.randrange(1, length)])
         offset = max(1, min(offset, length - 1))
         if r.random() < 0.5:  # skipped bits written as zero
@@ -214,6 +214,8 @@ def gen_groups(r: random.Random, afi: int, ctype: int, big: int = 6):
     """-> list of groups, a group = list of (op text, value text, op bits, number)"""
     ops = BIT_OPS if ctype in rf.BITMASK_TYPES else NUM_OPS
     ngroups = r.choice([1, 1, 1, 1, 2, 2, 3, r.randrange(1, big + 1)])
+    if r.random() < 0.04:
+        ngroups = r.randrange(7, 61)  # operator lists up to 60 entries
     groups = []
     for _ in range(ngroups):
         group = []
@@ -392,24 +394,25 @@ def gen_text_rule(r: random.Random, surface: str) -> dict:
     # the two route{} surfaces derive the family from the prefixes: an IPv6 rule needs one there
     if afi == 2 and surface != 'api-flat' and 1 not in types and 2 not in types:
         types.append(r.choice([1, 2]))
-    comps, comp_text = {}, {}
-    for t in types:
-        if t in rf.PREFIX_TYPES:
-            text, payload = gen_prefix(r, afi, t)
-            comps[t], comp_text[t] = payload, text
-        else:
-            groups = gen_groups(r, afi, t)
-            comps[t], comp_text[t] = groups_ops(t, groups), groups_text(r, groups)
-    rd_text, rd = gen_rd(r) if vpn else (None, None)
-    rule = {'afi': afi, 'safi': 134 if vpn else 133, 'rd': rd, 'comps': sorted(comps.items())}
-    target = None
     k = r.random()
+    target = None
     if k < 0.16:
         target = r.randrange(228, 253)
     elif k < 0.20:
         target = r.randrange(4080, 4101)
     elif k < 0.23:
         target = r.choice([239, 240, 255, 256, 257, 4094, 4095, 4096])
+    comps, comp_text = {}, {}
+    for t in types:
+        if t in rf.PREFIX_TYPES:
+            # size-targeted rules carry no offset prefix: ExaBGP's offset encoding has its own size (separate mechanism)
+            text, payload = gen_prefix(r, afi, t, allow_offset=target is None)
+            comps[t], comp_text[t] = payload, text
+        else:
+            groups = gen_groups(r, afi, t)
+            comps[t], comp_text[t] = groups_ops(t, groups), groups_text(r, groups)
+    rd_text, rd = gen_rd(r) if vpn else (None, None)
+    rule = {'afi': afi, 'safi': 134 if vpn else 133, 'rd': rd, 'comps': sorted(comps.items())}
     if target is not None and not pad_to(r, rule, comp_text, target):
         target = None
     order = list(dict(rule['comps']))
@@ -574,13 +577,13 @@ def minimise_refusal(real: Real, r: random.Random, g: dict) -> str:
 def diagnose(e: rf.RefFlowError, want: dict, data: bytes) -> str:
     """mechanism behind bytes the reference cannot decode (structural hints only)"""
     wc = dict(want['comps'])
+    for t, p in want['comps']:
+        if t in rf.PREFIX_TYPES and p[2] > 0:
+            return 'C16/enc-ipv6-offset-bytes'
     if e.kind == 'order' or e.kind == 'duplicate':
         return 'C16/enc-order'
     if e.kind == 'missing-eol':
         return 'C16/enc-eol'
-    for t, p in want['comps']:
-        if t in rf.PREFIX_TYPES and p[2] > 0:
-            return 'C16/enc-ipv6-offset-bytes'
     # an end-of-list set too early turns the next operator octet into a component type
     for t, p in e.partial:
         if t not in rf.PREFIX_TYPES and t in wc and len(p) < len(wc[t]):
@@ -634,6 +637,10 @@ def check_encoding(res: Result, g: dict, data: bytes, wit: dict) -> bool:
     except rf.RefFlowError as e:
         res.violation('C16/enc-length-value', f'no length: {e}', wit, 'enc:len')
         return False
+    if hdr + length != len(data) and data[0] >= 0xF0 and data[0] == len(data) - 1:
+        # a one octet length of 240..255: the RFC reads 0xFn as the first octet of the two octet form
+        res.violation('C16/enc-length-regime:short-form-from-240', f'{data[0]} octets announced in one octet ({data[0]:#x})', wit, 'enc:len:long')
+        return False
     if hdr + length != len(data):
         res.violation('C16/enc-length-value', f'length field says {length}, {len(data) - hdr} octets follow', wit, 'enc:len')
         return False
@@ -661,6 +668,11 @@ def check_encoding(res: Result, g: dict, data: bytes, wit: dict) -> bool:
         res.violation(key, f'reference cannot decode the NLRI ExaBGP packed: {e}', dict(wit, partial=[[t, list(map(list, p)) if t not in rf.PREFIX_TYPES else list(p)] for t, p in e.partial]), 'enc:decode')
         return False
     wc, gc = dict(want['comps']), dict(got['comps'])
+    if any(t in rf.PREFIX_TYPES and p[2] for t, p in want['comps']) and (got['notes'] or not rf.same_rule(got, want, widths=True)):
+        # one mechanism: the whole address is written from bit 0 over ceil(length/8) octets instead of the
+        # (length - offset) bit pattern; whatever the reference reads after it is a consequence
+        res.violation('C16/enc-ipv6-offset-bytes', f'rule with an offset prefix: wire decodes to {got["comps"][:2]}..., text says {want["comps"][:2]}... {got["notes"]}', dict(wit, decoded=jrule(got)), 'enc:ipv6-offset')
+        return False
     if sorted(wc) != sorted(gc):
         key = 'C16/enc-components'
         for t in sorted(gc):
@@ -676,7 +688,11 @@ def check_encoding(res: Result, g: dict, data: bytes, wit: dict) -> bool:
         if note == 'padding-not-zero' and (afi == 1 or not prefixes_agree):
             res.count('enc-prefix-trailing-bits-set')  # irrelevant for IPv4 (RFC 8955); for IPv6 reported with the prefix below
             continue
-        res.violation('C16/enc-' + note, f'sender side MUST violated: {note}', wit, 'enc:notes')
+        if note == 'padding-not-zero' and any(t in rf.PREFIX_TYPES and wc[t][2] for t in wc):
+            # the address written from bit 0 instead of the pattern from bit `offset`: the skipped bits land in the padding
+            res.violation('C16/enc-ipv6-offset-bytes', 'offset prefix: bits outside the (length - offset) bit pattern are set on the wire', dict(wit, decoded=jrule(got)), 'enc:ipv6-offset')
+        else:
+            res.violation('C16/enc-' + note, f'sender side MUST violated: {note}', wit, 'enc:notes')
         good = False
     for t in sorted(wc):
         name = cname(afi, t)
@@ -832,7 +848,7 @@ def afi_inference_case(res: Result, real: Real, r: random.Random, surface: str) 
 # ====================================================================== decode direction
 
 
-def gen_wire_rule(r: random.Random, afi=None, safi=None, small=False) -> dict:
+def gen_wire_rule(r: random.Random, afi=None, safi=None, small=False, offsets=True) -> dict:
     afi = afi or r.choice([1, 2])
     safi = safi or r.choice([133, 133, 134])
     types_all = list(rf.defined_types(afi))
@@ -848,7 +864,7 @@ def gen_wire_rule(r: random.Random, afi=None, safi=None, small=False) -> dict:
             else:
                 length = r.choice([0, 1, 8, 9, 64, 65, 127, 128, r.randrange(129)])
                 offset = 0
-                if length > 1 and r.random() < 0.15:
+                if offsets and length > 1 and r.random() < 0.15:
                     offset = r.randrange(1, length)
                 nbits = length - offset
                 comps.append((t, ('prefix', length, offset, r.getrandbits(nbits) if nbits else 0)))
@@ -1016,7 +1032,7 @@ def make_malformed(r: random.Random, kind: str):
     """-> (afi, safi, data, base rule, detail) or None"""
     afi = r.choice([1, 2])
     safi = r.choice([133, 133, 134])
-    base = gen_wire_rule(r, afi, safi)
+    base = gen_wire_rule(r, afi, safi, offsets=False)  # offset prefixes have their own mechanism
     comps = base['comps']
     rd = base['rd'] or b''
     enc = lambda cs: b''.join(rf.enc_component(afi, t, p) for t, p in cs)  # noqa: E731
@@ -1060,7 +1076,7 @@ def make_malformed(r: random.Random, kind: str):
         return afi, safi, rf.enc_length(len(body) + more) + body, base, f'length {len(body) + more} for {len(body)} octets'
     if kind == 'rd-truncated':
         safi = 134
-        base = gen_wire_rule(r, afi, 133, small=True)
+        base = gen_wire_rule(r, afi, 133, small=True, offsets=False)
         body = enc(base['comps'])
         used = base['comps']
         if len(body) >= 8:
